@@ -5,14 +5,20 @@ namespace Taskpool
 
 /-- slot conservation against the size the pool was constructed with (for an unbounded pool: the counter stays
 unbounded), the phase invariant and the registry invariant -/
-def GoodC (c : Cfg) (p : Pool) : Prop := Good c.size0 p
+def GoodC (c : Cfg) (p : Pool) : Prop := Good c.size0 true p
 
 /-- the same without reference to the configured size: it survives assignments to `pool_size` -/
-def BaseC (_ : Cfg) (p : Pool) : Prop := ∃ cap : Cap, Good cap p
+def BaseC (_ : Cfg) (p : Pool) : Prop := ∃ cap : Cap, Good cap true p
+
+/-- the strict variant: additionally no task was ever lost (no `KeyError` in a wrapper, nothing dropped while it held
+a slot) and no background call exists; an invariant of histories without `flush` / `gather_and_close` / `until_closed` -/
+def StrictC (_ : Cfg) (p : Pool) : Prop := ∃ cap : Cap, Good cap false p
+
+def noAsync : Op → Bool := fun o => !o.isAsync
 
 def noSetSize : Op → Bool := fun o => !o.isSetSize
 
-theorem good_init (cap : Cap) (simple : Option SpawnSpec) : Good cap (Pool.init cap simple) :=
+theorem good_init (cap : Cap) (L : Bool) (simple : Option SpawnSpec) : Good cap L (Pool.init cap simple) :=
   ⟨by cases cap with
       | fin n => exact ⟨n, rfl, by simp [Pool.init, heldL, grantsL]⟩
       | inf => exact ⟨rfl, rfl⟩,
@@ -20,16 +26,16 @@ theorem good_init (cap : Cap) (simple : Option SpawnSpec) : Good cap (Pool.init 
    ⟨by simp [Pool.init], fun t h => by simp [Pool.init] at h, fun t h => by simp [Pool.init] at h,
     fun t h => by simp [Pool.init] at h, fun _ t tk h _ => by simp [Pool.init] at h⟩,
    ⟨by simp [Pool.init], fun i hi => by simp [Pool.init] at hi⟩,
-   fun t tk h => by simp [Pool.init] at h⟩
+   fun t tk h => by simp [Pool.init] at h, fun _ => rfl, fun _ => rfl⟩
 
 theorem goodC_invariant : PoolInvariant GoodC noSetSize where
   init := by
     intro c simple _
-    exact good_init c.size0 simple
+    exact good_init c.size0 true simple
   op := by
     intro c p orders o ho hg
     have h1 := (Pool.tame_setOrders p orders).good hg
-    exact (Pool.tame_applyOp _ o (by simpa [noSetSize] using ho)).good h1
+    exact Pool.good_applyOp _ o (by simpa [noSetSize] using ho) (fun h => Bool.noConfusion h) h1
   run := by
     intro c p orders r hg
     exact Pool.good_runRef _ r ((Pool.tame_setOrders p orders).good hg)
@@ -38,19 +44,19 @@ theorem goodC_invariant : PoolInvariant GoodC noSetSize where
     exact (tame_of_eq p { p with emit := [] } rfl rfl).good hg
 
 /-- an assignment to `pool_size` re-bases slot conservation; phase and registry invariants do not care -/
-theorem good_setSize {cap : Cap} (p : Pool) (v : Int) (hg : Good cap p) : ∃ cap', Good cap' (p.doSetSize v).1 := by
+theorem good_setSize {cap : Cap} {L : Bool} (p : Pool) (v : Int) (hg : Good cap L p) : ∃ cap', Good cap' L (p.doSetSize v).1 := by
   unfold Pool.doSetSize
   split
   · exact ⟨cap, hg⟩
   · exact ⟨.fin (v.toNat + heldL p.tasks + grantsL p.sem.waiters), ⟨v.toNat, rfl, rfl⟩, hg.phase,
-      hg.reg.of_eq rfl rfl rfl rfl rfl, hg.grp.of_eq rfl rfl, hg.life.of_eq rfl rfl⟩
+      hg.reg.of_eq rfl rfl rfl rfl rfl, hg.grp.of_eq rfl rfl, hg.life.of_eq rfl rfl, hg.ll, hg.al⟩
 
 /-- phase and registry invariants (with *some* slot conservation) hold in every pool after **every** history,
 assignments to `pool_size` included -/
 theorem baseC_invariant : PoolInvariant BaseC allOps where
   init := by
     intro c simple _
-    exact ⟨c.size0, good_init c.size0 simple⟩
+    exact ⟨c.size0, good_init c.size0 true simple⟩
   op := by
     intro c p orders o _ ⟨cap, hg⟩
     have h1 := (Pool.tame_setOrders p orders).good hg
@@ -58,7 +64,27 @@ theorem baseC_invariant : PoolInvariant BaseC allOps where
     · cases o with
       | setSize v => exact good_setSize _ v h1
       | _ => simp [Op.isSetSize] at hs
-    · exact ⟨cap, (Pool.tame_applyOp _ o (by simpa using hs)).good h1⟩
+    · exact ⟨cap, Pool.good_applyOp _ o (by simpa using hs) (fun h => Bool.noConfusion h) h1⟩
+  run := by
+    intro c p orders r ⟨cap, hg⟩
+    exact ⟨cap, Pool.good_runRef _ r ((Pool.tame_setOrders p orders).good hg)⟩
+  drain := by
+    intro c p ⟨cap, hg⟩
+    exact ⟨cap, (tame_of_eq p { p with emit := [] } rfl rfl).good hg⟩
+
+/-- without background calls the strict variant holds after every history (assignments to `pool_size` included) -/
+theorem strictC_invariant : PoolInvariant StrictC noAsync where
+  init := by
+    intro c simple _
+    exact ⟨c.size0, good_init c.size0 false simple⟩
+  op := by
+    intro c p orders o ho ⟨cap, hg⟩
+    have h1 := (Pool.tame_setOrders p orders).good hg
+    by_cases hs : o.isSetSize = true
+    · cases o with
+      | setSize v => exact good_setSize _ v h1
+      | _ => simp [Op.isSetSize] at hs
+    · exact ⟨cap, Pool.good_applyOp _ o (by simpa using hs) (fun _ => by simpa [noAsync] using ho) h1⟩
   run := by
     intro c p orders r ⟨cap, hg⟩
     exact ⟨cap, Pool.good_runRef _ r ((Pool.tame_setOrders p orders).good hg)⟩
@@ -69,7 +95,7 @@ theorem baseC_invariant : PoolInvariant BaseC allOps where
 /-- every pool of every world reachable without an assignment to `pool_size`, if constructed with the finite size `n` -/
 theorem goodFin (base : Nat) (h : History) (hn : ∀ x ∈ h, x.admits noSetSize = true) (i : Nat) (c : Cfg) (p : Pool)
     (n : Nat) (hc : ((World.init base).run h).cfgs[i]? = some c) (hp : ((World.init base).run h).pools[i]? = some p)
-    (hsz : c.size0 = .fin n) : Good (.fin n) p := by
+    (hsz : c.size0 = .fin n) : Good (.fin n) true p := by
   have := (World.reachable goodC_invariant base h hn).inv i c p hc hp
   unfold GoodC at this
   rw [hsz] at this
@@ -78,7 +104,7 @@ theorem goodFin (base : Nat) (h : History) (hn : ∀ x ∈ h, x.admits noSetSize
 /-- … and if constructed unbounded -/
 theorem goodInf (base : Nat) (h : History) (hn : ∀ x ∈ h, x.admits noSetSize = true) (i : Nat) (c : Cfg) (p : Pool)
     (hc : ((World.init base).run h).cfgs[i]? = some c) (hp : ((World.init base).run h).pools[i]? = some p)
-    (hsz : c.size0 = .inf) : Good .inf p := by
+    (hsz : c.size0 = .inf) : Good .inf true p := by
   have := (World.reachable goodC_invariant base h hn).inv i c p hc hp
   unfold GoodC at this
   rw [hsz] at this
@@ -104,6 +130,15 @@ theorem groupsAll (base : Nat) (h : History) (i : Nat) (c : Cfg) (p : Pool)
     GroupsOK p := by
   obtain ⟨cap, hg⟩ := (World.reachable baseC_invariant base h (fun x _ => admits_all x)).inv i c p hc hp
   exact hg.grp
+
+/-- **no task is ever lost** in a history without `flush` / `gather_and_close` / `until_closed`: no wrapper ever
+hits the `KeyError` of a missing registry entry — whatever the mix of returns, exceptions, cancellations, callbacks
+and resizes -/
+theorem strictAll (base : Nat) (h : History) (hn : ∀ x ∈ h, x.admits noAsync = true) (i : Nat) (c : Cfg) (p : Pool)
+    (hc : ((World.init base).run h).cfgs[i]? = some c) (hp : ((World.init base).run h).pools[i]? = some p) :
+    p.lost = false ∧ RegOK p ∧ LifeOK p := by
+  obtain ⟨cap, hg⟩ := (World.reachable strictC_invariant base h hn).inv i c p hc hp
+  exact ⟨hg.ll rfl, hg.reg, hg.life⟩
 
 /-- the number of workers that have begun and not finished -/
 def Pool.live (p : Pool) : Nat := p.tasks.countP (fun t => t.phase == .inWorker)
